@@ -8,6 +8,7 @@ import (
 	"path/filepath"
 	"runtime"
 	"strings"
+	"sync/atomic"
 	"syscall"
 	"time"
 
@@ -33,7 +34,7 @@ func init() {
 			"race freedom is what the Go race detector reports on the executions produced (GORACE log, report blocks counted)",
 		},
 		Require: []string{"testdrv_histories", "testdrv_relistens", "testdrv_sends_before_first_listen", "testdrv_sends_closed", "testdrv_deliveries",
-			"mc_histories", "mc_deliveries", "mc_overlapping_sends", "mc_exactly_once_checks", "mc_stop_stamp_checks", "mc_porcupine_histories", "mc_relistens", "mc_stops_with_traffic_in_flight", "open_unstartable_probes", "helper_dies_probes", "mc_slow_callback_stops"},
+			"mc_histories", "mc_deliveries", "mc_overlapping_sends", "mc_exactly_once_checks", "mc_stop_stamp_checks", "mc_porcupine_histories", "mc_relistens", "mc_stops_with_traffic_in_flight", "open_unstartable_probes", "helper_dies_probes", "mc_slow_callback_stops", "close_with_traffic_probes"},
 		Workers: 8,
 		UsesCur: true,
 		Run:     runC17,
@@ -135,8 +136,8 @@ func runC17(c *mon.Ctx) {
 	c.Each("midicat-slow-callback", 1, func(_ int64, _ *mon.Rand) { runSlowCallbackHistory(c) })
 
 	// (c) no call blocks forever when the helper cannot be started
-	c.Each("open-unstartable", 5, func(i int64, _ *mon.Rand) {
-		mode := []string{"in", "out", "list", "outdies", "indies"}[i]
+	c.Each("open-unstartable", 6, func(i int64, _ *mon.Rand) {
+		mode := []string{"in", "out", "list", "outdies", "indies", "closebusy"}[i]
 		exe, _ := os.Executable()
 		args := []string{"openprobe", mode}
 		if hd := os.Getenv("VERIF_HELPER_DIR"); hd != "" {
@@ -171,7 +172,9 @@ func runC17(c *mon.Ctx) {
 		}
 		lf.Close()
 		out, _ := os.ReadFile(logf)
-		if mode == "outdies" || mode == "indies" {
+		if mode == "closebusy" {
+			c.Count("close_with_traffic_probes", 1)
+		} else if mode == "outdies" || mode == "indies" {
 			c.Count("helper_dies_probes", 1)
 		} else {
 			c.Count("open_unstartable_probes", 1)
@@ -179,6 +182,9 @@ func runC17(c *mon.Ctx) {
 		in := map[string]any{"probe": mode, "what": "helper made unstartable (PATH without midicat) after driver init, then " + mode + " port Open() on the main goroutine of an otherwise idle process"}
 		if mode == "outdies" || mode == "indies" {
 			in["what"] = "fault: the helper process exits right after it was started; then Send x 20 / Listen, stop, Close on the main goroutine of an otherwise idle process"
+		}
+		if mode == "closebusy" {
+			in["what"] = "slow listener (2 ms per message); a sender goroutine pumps 4000 messages and then closes the out-port; meanwhile the main goroutine calls stop and in.Close: closing with lines still queued must return"
 		}
 		switch {
 		case bytes.Contains(out, []byte("all goroutines are asleep - deadlock!")):
@@ -231,6 +237,55 @@ func OpenProbe(mode string) {
 	if err1 != nil || err2 != nil {
 		fmt.Println("OPENPROBE-SETUP-FAILED", err1, err2)
 		os.Exit(4)
+	}
+	if mode == "closebusy" {
+		// close the in-port while lines are still queued between the helper and a slow listener
+		dir, _ := os.MkdirTemp("", "verif-busy")
+		defer os.RemoveAll(dir)
+		os.Setenv("VERIF_MC_DIR", dir)
+		if err := ins[0].Open(); err != nil {
+			fmt.Println("OPENPROBE-SETUP-FAILED in.Open:", err)
+			os.Exit(4)
+		}
+		if err := outs[0].Open(); err != nil {
+			fmt.Println("OPENPROBE-SETUP-FAILED out.Open:", err)
+			os.Exit(4)
+		}
+		var seen int64
+		stop, err := ins[0].Listen(func([]byte, int32) {
+			atomic.AddInt64(&seen, 1)
+			time.Sleep(2 * time.Millisecond)
+		}, drivers.ListenConfig{})
+		if err != nil {
+			fmt.Println("OPENPROBE-SETUP-FAILED Listen:", err)
+			os.Exit(4)
+		}
+		for k := 0; k < 5000 && atomic.LoadInt64(&seen) == 0; k++ { // until the pipeline is live
+			outs[0].Send([]byte{0x90, 1, 1})
+			time.Sleep(2 * time.Millisecond)
+		}
+		// a sender keeps the pipeline full while the in-port is stopped and closed; it closes the
+		// out-port when it is done, so that afterwards nothing but the port calls under test is running
+		done := make(chan struct{})
+		go func() {
+			for k := 0; k < 20000; k++ {
+				outs[0].Send([]byte{0x90, byte(k & 127), 2})
+			}
+			outs[0].Close()
+			close(done)
+		}()
+		time.Sleep(150 * time.Millisecond) // the slow listener lets thousands of lines pile up in the pipeline
+		fmt.Println("stopping; deliveries so far:", atomic.LoadInt64(&seen))
+		stop()
+		fmt.Println("closing in while the sender is still sending")
+		ins[0].Close()
+		<-done
+		ins[0].Close()
+		// and the port can be opened and closed again
+		e1 := ins[0].Open()
+		e2 := ins[0].Close()
+		fmt.Println("OPENPROBE-OK stop, out.Close, in.Close x2 and re-open returned with traffic in flight; reopen:", e1, e2)
+		return
 	}
 	if mode == "outdies" || mode == "indies" {
 		// fault: the helper process starts and exits at once (crash of the backing process)
